@@ -66,6 +66,28 @@ pub fn panic_msg(e: Box<dyn std::any::Any + Send>) -> String {
 }
 
 /// Runs the REAL public builder.
+/// A returned `QRCode` is a plain value: a copy of it — `clone()`, or `clone_from` into a slot that held a smaller or a
+/// larger symbol — must be the same value. When a copy differs, the COPY is what the checks observe (so each property
+/// judges it by its own reading), otherwise the original.
+fn through_copies(q: QRCode) -> QRCode {
+    let same = |a: &QRCode, b: &QRCode| {
+        a.size == b.size && a.data[..] == b.data[..] && a.version.map(|v| v as usize) == b.version.map(|v| v as usize)
+            && a.ecl.map(ecl_ix) == b.ecl.map(ecl_ix) && a.mask.map(mask_ix) == b.mask.map(mask_ix) && a.mode.map(mode_ix) == b.mode.map(mode_ix)
+    };
+    let c = q.clone();
+    if !same(&c, &q) {
+        return c;
+    }
+    for slot_size in [21usize, 177] {
+        let mut slot = QRCode::default(slot_size);
+        slot.clone_from(&q);
+        if !same(&slot, &q) {
+            return slot;
+        }
+    }
+    q
+}
+
 pub fn build(input: &[u8], o: Opts) -> Outcome {
     let input = input.to_vec();
     let r = std::panic::catch_unwind(move || {
@@ -85,7 +107,10 @@ pub fn build(input: &[u8], o: Opts) -> Outcome {
         b.build()
     });
     match r {
-        Ok(Ok(q)) => Outcome::Ok(Box::new(q)),
+        Ok(Ok(q)) => match std::panic::catch_unwind(move || through_copies(q)) {
+            Ok(q) => Outcome::Ok(Box::new(q)),
+            Err(e) => Outcome::Trap(format!("copying-the-returned-QRCode-panicked {}", panic_msg(e))),
+        },
         Ok(Err(fast_qr::qr::QRCodeError::EncodedData)) => Outcome::ErrEncodedData,
         Ok(Err(fast_qr::qr::QRCodeError::SpecifiedVersion)) => Outcome::ErrSpecifiedVersion,
         Err(e) => Outcome::Trap(panic_msg(e)),
@@ -127,7 +152,10 @@ pub fn build_after(input: &[u8], prev: Opts, o: Opts) -> Outcome {
         b.build()
     });
     match r {
-        Ok(Ok(q)) => Outcome::Ok(Box::new(q)),
+        Ok(Ok(q)) => match std::panic::catch_unwind(move || through_copies(q)) {
+            Ok(q) => Outcome::Ok(Box::new(q)),
+            Err(e) => Outcome::Trap(format!("copying-the-returned-QRCode-panicked {}", panic_msg(e))),
+        },
         Ok(Err(fast_qr::qr::QRCodeError::EncodedData)) => Outcome::ErrEncodedData,
         Ok(Err(fast_qr::qr::QRCodeError::SpecifiedVersion)) => Outcome::ErrSpecifiedVersion,
         Err(e) => Outcome::Trap(panic_msg(e)),
